@@ -827,6 +827,8 @@ func (r *reader) read(src []byte) {
 			r.raise("escaped character not terminated")
 		case symbolMode:
 			r.partial("|symbol| not terminated")
+		case blockCommentMode, blockEndMode:
+			r.partial("block comment not terminated")
 		case charMode, charFirstMode:
 			r.pushChar(src)
 		case intMode:
